@@ -56,6 +56,9 @@ def cfg_list(tier, seed):
         elif i % 6 == 1:
             # identical multi-operator pipelines: operator boundaries coincide, several suspensions end in one tick
             c = _sim.preemption_case(rng, algo="priority", oom=False, identical=True)
+        elif i == 5:
+            c = _sim.scale_case(rng, "many-small", algo=rng.choice(["priority", "naive"]))
+            c["params"]["num_pools"] = 1
         elif i % 6 == 2:
             # overbook with exact score ties: identical pipelines start in the same tick on a pool they overflow together
             tps = rng.choice([2, 5, 10])
